@@ -85,14 +85,19 @@ pub fn exp_base2<S: Src>(s: &mut S) {
     same!(s, got, want, "C09 value: EXP base 2");
 }
 
-/// EXP with base 0 / 1 and a fully symbolic exponent.
-pub fn exp_base01<S: Src>(s: &mut S) {
+/// EXP with base 0 and a fully symbolic exponent: 0^0 = 1, 0^e = 0.
+pub fn exp_base0<S: Src>(s: &mut S) {
     let e = word(s);
-    let one = s.bool();
-    let base = if one { model::ONE } else { model::ZERO };
-    let got = kw(base).exp(kw(e));
-    let want = if one || e.is_zero() { model::ONE } else { model::ZERO };
-    same!(s, got, want, "C09 value: EXP base 0/1");
+    let got = kw(model::ZERO).exp(kw(e));
+    let want = if e.is_zero() { model::ONE } else { model::ZERO };
+    same!(s, got, want, "C09 value: EXP base 0");
+}
+
+/// EXP with base 1 and a fully symbolic exponent: 1^e = 1.
+pub fn exp_base1<S: Src>(s: &mut S) {
+    let e = word(s);
+    let got = kw(model::ONE).exp(kw(e));
+    same!(s, got, model::ONE, "C09 value: EXP base 1");
 }
 
 /// EXP with a symbolic base and each exponent 0..=3 (UF multiplier):
